@@ -1,4 +1,5 @@
 import Prom.Lemmas.C12Aux
+import Prom.Lemmas.C12Vec
 
 namespace Prom.C12
 open Prom
@@ -129,6 +130,182 @@ theorem vec_drop_flushes (w : VW) (h : Nat) (hf : w.flushOnDrop = true) :
 theorem vec_clone_empty (w : VW) (h : Nat) (lv : LVec) (hl : w.locals[h]? = some (some lv)) :
     (w.lclone h).locals = w.locals ++ [some ({} : LVec)] ∧ (w.lclone h).v = w.v := by
   simp [VW.lclone, hl]
+
+/-! #### local vectors: whole histories
+
+`VOpL`/`VW.step` (Prom/Lemmas/C12Vec.lean) run any list of operations over any number of local
+handles of one shared vector: `lwith h vals d` (`local.with_label_values(vals)` + update by `d`),
+`lflush`, `lremove`, `lclone`, `ldrop`, `lnew`, and the direct operations on the shared vector
+`swith vals d`, `sremove vals`, `sreset`.  Ghost quantities are functions of the history:
+`totalIn` sums the amounts `d` of all *accepted* updates (an `lwith` on a dropped/unknown handle, or
+one that panics on a wrong cardinality / child build error, changes nothing and is not counted),
+`totalDiscarded` sums what was deliberately thrown away (counter flavour only: the pending amount of
+a dropped local, and of the cached entry removed by `lremove`).
+
+What is conserved is the value of all children EVER created (`MVec.store`), not of the children
+currently attached (`MVec.collect`): `remove`/`reset` detach a child but handles and caches keep
+updating it, see `vec_collect_not_conserved`. -/
+
+/-- every reachable state is well-formed (ids denote stored children, cache keys are distinct) -/
+theorem vec_wf (names consts bf fod) (ops : List VOpL) :
+    VWf (ops.foldl VW.step (VW.fresh names consts bf fod)) :=
+  run_wf _ (fresh_wf ..) ops
+
+/-- **shared_eq_direct_plus_flushed (vector), general form** — from any well-formed state, for any
+    selection `sel` of child ids, over any history and any number of handles:
+    value held by the selected children ever created + amounts pending for them in live local caches
+    + amounts discarded = the same before the history + the accepted updates booked on them. -/
+theorem vec_conservation_from (sel : Nat → Bool) (w : VW) (hw : VWf w) (ops : List VOpL) :
+    (ops.foldl VW.step w).held sel + w.totalDiscarded sel ops = w.held sel + w.totalIn sel ops :=
+  run_conserve sel w hw ops
+
+/-- **shared_eq_direct_plus_flushed (vector)** — over any history on a new vector with any number of
+    local handles: total value of all children ever created (direct updates + flushed batches)
+    + everything still pending in live local caches + everything deliberately discarded
+    = the sum of all amounts passed to accepted `lwith`/`swith`.  Nothing is lost or counted twice. -/
+theorem vec_conservation (names consts bf fod) (ops : List VOpL) :
+    (ops.foldl VW.step (VW.fresh names consts bf fod)).v.storeTotal
+      + pendingTotal (ops.foldl VW.step (VW.fresh names consts bf fod)).locals
+      + (VW.fresh names consts bf fod).totalDiscarded (fun _ => true) ops
+    = (VW.fresh names consts bf fod).totalIn (fun _ => true) ops := by
+  have h := run_conserve (fun _ => true) _ (fresh_wf names consts bf fod) ops
+  rw [held_all, fresh_held] at h
+  omega
+
+/-- **per child** — the same account for every single child id: its value + what is pending for it
+    in live caches + what was discarded of it = the accepted updates booked on it (`lwith` books on
+    the cached child of the key if there is one, else on the child `get_or_create` returns). -/
+theorem vec_conservation_child (names consts bf fod) (ops : List VOpL) (id : Nat) :
+    (ops.foldl VW.step (VW.fresh names consts bf fod)).v.valOf id
+      + localsHeld (fun i => i == id) (ops.foldl VW.step (VW.fresh names consts bf fod)).locals
+      + (VW.fresh names consts bf fod).totalDiscarded (fun i => i == id) ops
+    = (VW.fresh names consts bf fod).totalIn (fun i => i == id) ops := by
+  have h := run_conserve (fun i => i == id) _ (fresh_wf names consts bf fod) ops
+  rw [held_single, fresh_held] at h
+  omega
+
+/-- **histogram flavour loses nothing** — with `flushOnDrop` nothing is ever discarded: the children
+    ever created plus the live caches hold exactly what was put in; in particular everything a
+    dropped or removed local had accumulated is in the shared vector. -/
+theorem vec_conservation_histogram (names consts bf) (ops : List VOpL) :
+    (ops.foldl VW.step (VW.fresh names consts bf true)).v.storeTotal
+      + pendingTotal (ops.foldl VW.step (VW.fresh names consts bf true)).locals
+    = (VW.fresh names consts bf true).totalIn (fun _ => true) ops := by
+  have h := vec_conservation names consts bf true ops
+  rw [totalDiscarded_flush _ _ rfl] at h
+  omega
+
+/-- **flush_exact (vector)** — a flush adds to every child exactly what the handle has pending for
+    it (accumulated since its previous flush), leaves the handle with nothing pending, and keeps the
+    cached keys and child ids. -/
+theorem vec_flush_exact (w : VW) (hw : VWf w) (h : Nat) (lv : LVec) (hl : w.locals[h]? = some (some lv)) :
+    (∀ id, (w.lflush h).v.valOf id = w.v.valOf id + cacheHeld (fun i => i == id) lv.cache) ∧
+    (w.lflush h).v.storeTotal = w.v.storeTotal + optPending (some lv) ∧
+    (w.lflush h).locals[h]? = some (some ⟨lv.cache.map fun e => (e.1, e.2.1, 0)⟩) ∧
+    optPending ((w.lflush h).locals[h]?.getD none) = 0 := by
+  have hok := hw.2 lv (List.mem_of_getElem? hl)
+  have hlt := lt_of_getElem? hl
+  have e : w.lflush h =
+      { w with v := flushCache w.v lv.cache,
+               locals := w.locals.set h (some ⟨lv.cache.map fun e => (e.1, e.2.1, 0)⟩) } := by
+    simp only [VW.lflush, hl]
+  rw [e]
+  refine ⟨?_, ?_, ?_, ?_⟩
+  · intro id
+    have := flushCache_held (fun i => i == id) w.v lv.cache hok.2
+    rw [storeHeld_single, storeHeld_single] at this
+    exact this
+  · have := flushCache_held (fun _ => true) w.v lv.cache hok.2
+    rw [storeHeld_all, storeHeld_all, cacheHeld_all] at this
+    exact this
+  · simp [hlt]
+  · have := cacheHeld_zeroed (fun _ => true) lv.cache
+    rw [cacheHeld_all, List.map_map] at this
+    simp [hlt, optPending, this]
+
+/-- **flush_idempotent (vector)** — a second flush changes nothing at all -/
+theorem vec_flush_idempotent (w : VW) (h : Nat) : (w.lflush h).lflush h = w.lflush h := by
+  cases hl : w.locals[h]? with
+  | none =>
+    have e : w.lflush h = w := by simp only [VW.lflush, hl]
+    rw [e, e]
+  | some o =>
+    cases o with
+    | none =>
+      have e : w.lflush h = w := by simp only [VW.lflush, hl]
+      rw [e, e]
+    | some lv =>
+      have hlt := lt_of_getElem? hl
+      have e : w.lflush h =
+          { w with v := flushCache w.v lv.cache,
+                   locals := w.locals.set h (some ⟨lv.cache.map fun e => (e.1, e.2.1, 0)⟩) } := by
+        simp only [VW.lflush, hl]
+      rw [e]
+      have hl' : (w.locals.set h (some (⟨lv.cache.map fun e => (e.1, e.2.1, 0)⟩ : LVec)))[h]? =
+          some (some ⟨lv.cache.map fun e => (e.1, e.2.1, 0)⟩) := by simp [hlt]
+      simp only [VW.lflush, hl']
+      rw [flushCache_zero, List.set_set, List.map_map]
+      · rfl
+      · intro e he
+        obtain ⟨e0, _, rfl⟩ := List.mem_map.1 he
+        rfl
+
+/-- **drop discards (counter vector)** — dropping a local counter vector leaves the shared vector
+    untouched: what it had pending is discarded (and accounted for in `totalDiscarded`) -/
+theorem vec_drop_discards (w : VW) (h : Nat) (hf : w.flushOnDrop = false) :
+    (w.ldrop h).v = w.v ∧
+    ∀ lv, w.locals[h]? = some (some lv) → w.discards (fun _ => true) (.ldrop h) = optPending (some lv) := by
+  constructor
+  · unfold VW.ldrop
+    cases hl : w.locals[h]? with
+    | none => rfl
+    | some o => cases o <;> simp [hf]
+  · intro lv hl
+    simp [VW.discards, hf, hl, optPending, cacheHeld_all]
+
+/-- non-vacuity (counter flavour): two handles on one key; handle 1 removes the key (discarding its
+    2), handle 0 keeps updating the detached child 0 through its cache, a direct update recreates the
+    key as child 1; handle 1 is dropped with 4 pending; a dropped handle and a wrong cardinality put
+    in nothing.  15 in = 8 + 1 in the children + 0 pending + 6 discarded; `collect` shows only 1. -/
+example :
+    let a : List Str := [[97]]
+    let ops : List VOpL := [.lnew, .lwith 0 a 3, .lclone 0, .lwith 1 a 2, .lflush 0, .lremove 1 a,
+      .lwith 0 a 5, .swith a 1, .lflush 0, .lwith 1 a 4, .ldrop 1, .lwith 1 a 9, .lwith 0 [] 9]
+    let w0 := VW.fresh [[108]] [] false false
+    let w := ops.foldl VW.step w0
+    w.v.store.map (·.val) = [8, 1] ∧ pendingTotal w.locals = 0 ∧
+    w0.totalIn (fun _ => true) ops = 15 ∧ w0.totalDiscarded (fun _ => true) ops = 6 ∧
+    w.v.collect.map (·.val) = [1] := by decide +kernel
+
+/-- the same history in histogram flavour: nothing discarded, 15 = 10 + 5 -/
+example :
+    let a : List Str := [[97]]
+    let ops : List VOpL := [.lnew, .lwith 0 a 3, .lclone 0, .lwith 1 a 2, .lflush 0, .lremove 1 a,
+      .lwith 0 a 5, .swith a 1, .lflush 0, .lwith 1 a 4, .ldrop 1, .lwith 1 a 9, .lwith 0 [] 9]
+    let w0 := VW.fresh [[108]] [] false true
+    let w := ops.foldl VW.step w0
+    w.v.store.map (·.val) = [10, 5] ∧ pendingTotal w.locals = 0 ∧
+    w0.totalIn (fun _ => true) ops = 15 ∧ w0.totalDiscarded (fun _ => true) ops = 0 := by decide +kernel
+
+/-- **why "children ever created"** — the statement with the *collected* (attached) children instead
+    is false: handle 0 accumulates 3 for a key, handle 1 removes the key, handle 0 flushes into the
+    detached child.  Nothing is pending, nothing was discarded, 3 went in, `collect` is empty. -/
+theorem vec_collect_not_conserved :
+    let a : List Str := [[97]]
+    let ops : List VOpL := [.lnew, .lnew, .lwith 0 a 3, .lremove 1 a, .lflush 0]
+    let w0 := VW.fresh [[108]] [] false false
+    let w := ops.foldl VW.step w0
+    (w.v.collect.map (·.val)).sum = 0 ∧ pendingTotal w.locals = 0 ∧
+    w0.totalDiscarded (fun _ => true) ops = 0 ∧ w0.totalIn (fun _ => true) ops = 3 ∧
+    w.v.storeTotal = 3 := by decide +kernel
+
+/-- **why well-formedness** — `MVec.bump` on an id that denotes no stored child does nothing, so from
+    an ill-formed state (a cache entry with a dangling child id) a flush loses the pending amount. -/
+theorem vec_illformed_loses :
+    let w : VW := { v := { names := [], consts := [], buildFails := false, children := [], store := [] },
+                    locals := [some ⟨[(0, 5, 7)]⟩], flushOnDrop := false }
+    w.held (fun _ => true) = 7 ∧ (w.step (.lflush 0)).held (fun _ => true) = 0 ∧
+    w.totalDiscarded (fun _ => true) [.lflush 0] = 0 := by decide +kernel
 
 /-- non-vacuity: a history with two handles, a clone, a reset, flushes -/
 example : (([.lnew, .linc 0 3, .lclone 0, .linc 1 2, .lflush 0, .lflush 0, .lreset 1, .sinc 4, .lflush 1] : List COp).foldl CW.step {})
